@@ -222,7 +222,7 @@ class Engine:
                 if l in st.frames[fid]:
                     before[l] = st.frames[fid][l]
                 st.frames[fid][l] = ('lv', bb, l)
-            st.events.append(('loop_head', fn.name, bb, before))
+            st.events.append(('loop_head', fn.name, bb, before, len(st.conds)))
             # forget visited marks inside the loop body so the iteration can be walked
             st.visited[fid] -= cfg.loops[bb]
         elif bb in st.visited[fid]:
@@ -843,7 +843,7 @@ class Engine:
                 before[acc_key] = args[1]
                 st.frames[fid][acc_key] = ('lv', marker, acc_key)
             st.epoch += 1
-            st.events.append(('loop_head', fn.name, marker, before))
+            st.events.append(('loop_head', fn.name, marker, before, len(st.conds)))
             st.events.append(('adapter', base, marker, source, tuple(s_[0] for s_ in stages)))
         elif acc_key:
             st.frames[fid][acc_key] = args[1]
